@@ -7,6 +7,7 @@ all 65 536 register values, so the 2^24 three-byte messages drive the public crc
 0..2 (every table entry in every lane reachable within 2 steps), thorough: all 2^24 three-byte
 messages; plus structured long messages in both byte orders.
 """
+import itertools
 from ..ref import crc as R
 from .common import filler
 
@@ -43,7 +44,7 @@ def selftest():
 
 
 def REQUIRED_COVER(tier):
-    return {'crc16:len0', 'crc16:len3', 'crc32c:len0', 'crc32c:len2', 'crc32c:big', 'crc32c:long', 'lengths', 'held-results', 'temporaries'}
+    return {'crc16:len0', 'crc16:len3', 'crc32c:len0', 'crc32c:len2', 'crc32c:big', 'crc32c:long', 'lengths', 'held-results', 'temporaries', 'extensions'}
 
 
 def shards(tier, seed):
@@ -64,6 +65,7 @@ def shards(tier, seed):
         out.append({'fn': 'shard_history', 'args': {'part': p, 'parts': 8, 'depth': 3 if tier == 'quick' else 4}})
     for form in ('slice', 'concat', 'bytearray-temp', 'bytearray-inplace', 'memoryview-window', 'memoryview-whole', 'memoryview-of-bytearray-window'):
         out.append({'fn': 'shard_temporaries', 'args': {'form': form}})
+    out.append({'fn': 'shard_extensions', 'args': {}})
     for p in range(16):
         out.append({'fn': 'shard_lengths', 'args': {'part': p, 'parts': 16}, 'prio': 8})
     return out + longs
@@ -246,6 +248,35 @@ def shard_temporaries(rec, form):
     rec.bulk(states=n, nontrivial=n)
     rec.covered('temporaries')
     rec.outcome('temporaries-ok')
+
+
+def shard_extensions(rec):
+    """wave 10: prefix-extension triples in one process - X, then X+T, then X+U (and X again, X+T again, both byte orders): every result is
+    the checksum of ITS argument.  X of 0, 1, 31, 32, 33, 64, 100 bytes; T, U of 1, 4, 33 bytes; crc32c and crc16."""
+    from pytoniq_core.crypto.crc import crc16, crc32c
+    n = 0
+    for LX in (0, 1, 31, 32, 33, 64, 100):
+        X = bytes((i * 7 + LX) % 256 for i in range(LX))
+        for LT in (1, 4, 33):
+            T = bytes((i * 5 + 1) % 256 for i in range(LT))
+            for LU in (1, 4, 33):
+                U = bytes((i * 3 + 2) % 251 for i in range(LU))
+                for order in itertools.permutations([X, X + T, X + U, X, X + T + U], 5) if (LT, LU) == (4, 4) else [[X, X + T, X + U, X, X + T, X + T + U, X + U]]:
+                    for name, f, ref in (('crc32c', crc32c, lambda d: R.crc32c(d, 'little')), ('crc32c-big', lambda d: crc32c(d, 'big'), lambda d: R.crc32c(d, 'little')[::-1]),
+                                         ('crc16', crc16, R.crc16)):
+                        for k, m in enumerate(order):
+                            n += 1
+                            got = bytes(f(m))
+                            if got != ref(m):
+                                rec.violation(f'{name.split("-")[0]}:extension-history', f'{name}: call #{k} of the sequence of lengths {[len(x) for x in order]} (a message, extensions of it, '
+                                              f'the message again): {got.hex()}, reference {ref(m).hex()}', 'shard_extensions', {})
+                                return
+    rec.case('extensions', n)
+    rec.trace(n)
+    rec.trans(n)
+    rec.bulk(states=n, nontrivial=n)
+    rec.covered('extensions')
+    rec.outcome('extensions-ok')
 
 
 def shard_crc16_len3(rec, p0_lo, p0_hi):
